@@ -104,19 +104,22 @@ def burst_of(hx, kind, i):
         conf = kind.endswith("c")
         sap = FIRST_SAP[0] if (i == 0 and FIRST_SAP) else hx.pick("sap%d" % i, [SAPIdentifier.ShortData, SAPIdentifier.UDP_IP_compression] if i < 2 else [SAPIdentifier.ShortData])
         return mk(DataHeader(dpf=DataPacketFormats.DataPacketConfirmed if conf else DataPacketFormats.DataPacketUnconfirmed, is_response_requested=conf, sap_identifier=sap,
-                             llid_destination=5, llid_source=6, full_message_flag=FullMessageFlag.FirstTryToCompletePacket, blocks_to_follow=hx.pick("btf%d" % i, [0, 1, 2, 100] if i == 0 else [1, 2]), pad_octet_count=0,
+                             llid_destination=5, llid_source=6, full_message_flag=FullMessageFlag.FirstTryToCompletePacket, blocks_to_follow=FIRST_BTF[0] if (i == 0 and FIRST_BTF) else hx.pick("btf%d" % i, [0, 1, 2, 100] if i == 0 else [1, 2]), pad_octet_count=0,
                              resynchronize_flag=ResynchronizeFlag.DoNotSync), DataTypes.DataHeader)
     if kind == "preamble":
-        return mk(CSBK(csbko=CsbkOpcodes.PreambleCSBK, source_address=6, target_address=5, blocks_to_follow=hx.pick("pre%d" % i, [0, 1, 3, 200] if i == 0 else [0, 3]), target_address_is_individual=True, last_block=True), DataTypes.CSBK)
+        return mk(CSBK(csbko=CsbkOpcodes.PreambleCSBK, source_address=6, target_address=5, blocks_to_follow=FIRST_BTF[0] if (i == 0 and FIRST_BTF) else hx.pick("pre%d" % i, [0, 1, 3, 200] if i == 0 else [0, 3]), target_address_is_individual=True, last_block=True), DataTypes.CSBK)
     if kind == "csbk":
         return mk(CSBK(csbko=CsbkOpcodes.BSOutboundActivation, bs_address=5, source_address=6), DataTypes.CSBK)
     if kind == "rate12":
         return mk(Rate12Data(data=hx.bytes(12, "pl%d" % i), packet_type=Rate12DataTypes.Unconfirmed), DataTypes.Rate12Data)
+    if kind == "rate12-fixed":
+        return mk(Rate12Data(data=bytes([0x10 + i] * 12), packet_type=Rate12DataTypes.Unconfirmed), DataTypes.Rate12Data)
     if kind == "rate1":
         return mk(Rate1Data(data=bytes(24), packet_type=Rate1DataTypes.Unconfirmed), DataTypes.Rate1Data)
     raise KeyError(kind)
 
 
+FIRST_BTF = []          # set per case: blocks-to-follow of the burst that opens the history (h_interleave)
 FIRST_SAP = []          # set per case: the SAP of a data header that opens the history (declared split moved to the case level)
 
 
@@ -136,8 +139,76 @@ def monitor(hx, ev, what):
             open_kind = None
 
 
+BLOCK_KINDS = ("data-header-u", "data-header-c", "preamble", "csbk", "rate12", "rate12-fixed", "rate1")
+
+
+def same_pdu(x, y):
+    """x: block handed over by the tracker, y: PDU of the burst that was fed.  Data blocks are re-typed by the tracker (confirmed / last block
+    according to its own state), so they are compared by their payload octets; headers and CSBKs bit for bit."""
+    if isinstance(y, (Rate12Data, Rate1Data)):
+        if type(x) is not type(y):
+            return 0
+        sent = y.as_bits().tobytes()
+        n = len(x.data)
+        off = 2 if x.is_confirmed() else 0          # confirmed blocks: 7-bit serial number + CRC-9 in front; last blocks: CRC-32 behind the data
+        return T(bytes(sent[off:off + n]) == x.data) if 0 < n <= len(sent) - off else 0
+    if type(x) is not type(y):
+        return 0
+    return T(x.as_bits() == y.as_bits())
+
+
+def blocks_clause(hx, new, since, pdu, what):
+    """`since`: PDUs of the block-carrying bursts of this timeslot since its last 'started' (updated in place).  An 'ended' that is followed by a
+    'started' inside the same burst was forced by that burst (which belongs to the next transmission); otherwise the burst completes
+    the transmission and is its last block."""
+    for j, e in enumerate(new):
+        if e[0] in ("data_ended", "voice_ended"):
+            nm = "'%s'" % e[0].replace("_", " ")
+            forced = any(x[0] == "started" for x in new[j + 1:])
+            exp = list(since) + ([pdu] if (pdu is not None and not forced) else [])
+            got = e[2]
+            hx.prove(len(got) == len(exp), "%s: %s hands over as many blocks as were received since that start (%d expected, %d handed over)" % (what, nm, len(exp), len(got)))
+            if len(got) == len(exp):
+                hx.prove(AND(*[same_pdu(g, x) for g, x in zip(got, exp)]) if exp else True, "%s: %s hands over exactly the blocks received since that start, in order" % (what, nm))
+                if e[0] == "data_ended":
+                    hx.prove(any(h is e[1] for h in got) or not any(isinstance(x, DataHeader) for x in exp), "%s: the handed-over data header is the one received in that transmission" % what)
+            del since[:]
+        elif e[0] == "started":
+            del since[:]
+    if pdu is not None and not (any(e[0] in ("data_ended", "voice_ended") for e in new) and not any(e[0] == "started" for e in new)):
+        since.append(pdu)
+
+
+def h_interleave(hx, opener, btf):
+    """two timeslots, interleaved: a block-carrying transmission is opened on timeslot 1, one burst of any core class arrives on timeslot 2,
+    then timeslot 1 receives its data blocks - what timeslot 1 hands over must be its own header and blocks"""
+    del FIRST_SAP[:]
+    del FIRST_BTF[:]
+    FIRST_BTF.append(btf)
+    rec = Rec()
+    term = Terminal(5, observers=[rec])
+    since = {1: [], 2: []}
+    FIRST_SAP.append(SAPIdentifier.ShortData)
+    plan = [(opener, 1), (hx.pick("k1", ["voice-header", "terminator", "preamble", "data-header-u", "rate12-fixed"]), 2), ("rate12-fixed", 1),
+            (hx.pick("k3", ["rate12-fixed", "terminator", "preamble", "voice-header"]), hx.pick("ts3", [1, 2])), ("rate12-fixed", 1)]
+    kinds = []
+    for i, (kind, ts) in enumerate(plan):
+        kinds.append("%s@%d" % (kind, ts))
+        what = "interleaved history %r" % (kinds,)
+        n_ev = len(rec.ev)
+        b = burst_of(hx, kind, i)
+        st, out = hx.guard(term.process_incoming_burst, b, ts)
+        hx.prove(st == "ok", "%s: processing never fails (%s: %s)" % (what, type(out).__name__ if st == "exc" else "", out if st == "exc" else ""))
+        if st != "ok":
+            return
+        blocks_clause(hx, rec.ev[n_ev:], since[ts], b.data if kind in BLOCK_KINDS else None, what)
+    del FIRST_BTF[:]
+    hx.cover("interleave")
+
+
 def h_history(hx, first, depth, raising, two_slots, full=True, first_sap=None):
     del FIRST_SAP[:]
+    del FIRST_BTF[:]
     if first_sap:
         FIRST_SAP.append(getattr(SAPIdentifier, first_sap))
     rec = Rec()
@@ -162,12 +233,9 @@ def h_history(hx, first, depth, raising, two_slots, full=True, first_sap=None):
                  known={"C08-udp-header-parse-of-short-user-data": True} if st == "exc" and isinstance(out, AssertionError) and "extended header" in str(out) else None)
         new = rec.ev[n_ev:]
         monitor(hx, rec.ev, what)
-        # blocks handed over == blocks received since that start
-        for e in new:
-            if e[0] == "started":
-                since_start[ts] = []
-        if kind in ("data-header-u", "data-header-c", "preamble", "csbk", "rate12", "rate1") and st == "ok":
-            pass
+        # blocks handed over == the header and the blocks received since that start (on this timeslot)
+        if st == "ok":
+            blocks_clause(hx, new, since_start[ts], b.data if kind in BLOCK_KINDS else None, what)
         for j, e in enumerate(new):
             if e[0] in ("data_ended", "voice_ended"):
                 restarted = any(x[0] == "started" for x in new[j + 1:])       # the same burst may start the next transmission right away
@@ -198,6 +266,7 @@ def h_step(hx, prefix, kind):
     """one step from a tracker state that a LONG history reaches: the state after `prefix` with the 8-bit receive sequence counter replaced by
     an arbitrary value (reached by that many further bursts) and, inside a voice transmission, the last voice-burst label replaced by any of
     A..F / unknown (reached by a voice-sync burst followed by 0..5 embedded-signalling bursts)."""
+    del FIRST_BTF[:]
     rec = Rec()
     term = Terminal(5, observers=[rec])
     for i, k in enumerate(prefix):
@@ -219,8 +288,6 @@ def h_step(hx, prefix, kind):
         return
     hx.prove(out.sequence_no == ((seq + 1) & 255), "%s: the receive sequence number is (s + 1) mod 256" % what)
     ended = any(e[0] in ("data_ended", "voice_ended") for e in rec.ev[n_ev:])
-    nxt = term.process_incoming_burst(burst_of(hx, "csbk", 9), 1)
-    hx.prove(nxt.sequence_no == (1 if ended else ((seq + 2) & 255)), "%s: the following burst gets %s" % (what, "1 (restart after an end)" if ended else "(s + 2) mod 256"))
     if last is not None and tr.type is TransmissionTypes.VoiceTransmission and not ended:
         cyc = [VoiceBursts.VoiceBurstA, VoiceBursts.VoiceBurstB, VoiceBursts.VoiceBurstC, VoiceBursts.VoiceBurstD, VoiceBursts.VoiceBurstE, VoiceBursts.VoiceBurstF]
         if kind == "voice-sync":
@@ -228,6 +295,9 @@ def h_step(hx, prefix, kind):
         elif kind == "voice-emb" and last in cyc:
             want = cyc[(cyc.index(last) + 1) % 6]
             hx.prove(out.voice_burst is want, "%s: the burst after %s is labelled %s" % (what, last.name, want.name))
+            hx.cover("voice-label")
+    nxt = term.process_incoming_burst(burst_of(hx, "csbk", 9), 1)
+    hx.prove(nxt.sequence_no == (1 if ended else ((seq + 2) & 255)), "%s: the following burst gets %s" % (what, "1 (restart after an end)" if ended else "(s + 2) mod 256"))
     hx.cover("step")
 
 
@@ -251,8 +321,13 @@ def cases(tier, seed):
                             bounds="depth 2 over the core alphabet with a first observer that raises on every notification"))
             out.append(Case("twoslots-d2-%s%s" % (first, sfx), "h_history", dict(first=first, depth=2, raising=False, two_slots=True, full=False, first_sap=fs), covers=["history"], budget_s=600, opts=OPTS,
                             bounds="depth 2 over the core alphabet, each burst on timeslot 1 or 2 (declared split)"))
+    for opener, btf in (("data-header-u", 1), ("data-header-u", 2), ("data-header-c", 2), ("preamble", 2)):
+        out.append(Case("interleave-%s-%d" % (opener, btf), "h_interleave", dict(opener=opener, btf=btf), covers=["interleave"], budget_s=900, opts=OPTS,
+                        bounds="5 bursts: %s (blocks to follow %d) on timeslot 1, one burst of {voice header, terminator, preamble, data header, rate 1/2 block} on timeslot 2, "
+                               "a rate 1/2 block on timeslot 1, one burst of {rate 1/2 block, terminator, preamble, voice header} on either timeslot, a rate 1/2 block on timeslot 1; payloads concrete" % (opener, btf)))
     for prefix in ([], ["voice-header"], ["voice-header", "voice-sync"], ["data-header-u"], ["preamble"], ["voice-header-any"]):
         for kind in (ALPHABET + ["voice-header-any"] if prefix != ["voice-header-any"] else ["terminator", "voice-header", "data-header-u", "voice-emb"]):
-            out.append(Case("step-%s-then-%s" % ("+".join(prefix) or "idle", kind), "h_step", dict(prefix=prefix, kind=kind), covers=["step"], budget_s=600, opts=OPTS,
+            out.append(Case("step-%s-then-%s" % ("+".join(prefix) or "idle", kind), "h_step", dict(prefix=prefix, kind=kind),
+                            covers=["step"] + (["voice-label"] if kind == "voice-emb" and prefix[:1] == ["voice-header"] else []), budget_s=600, opts=OPTS,
                             bounds="one burst from the state after %r with an arbitrary 8-bit sequence counter and (voice) any last voice-burst label" % (prefix,)))
     return out
